@@ -81,9 +81,10 @@ def _run_one(job):
     from . import sched_run  # imported in the worker: finam import per process
     cfg, link_order = job[0], job[1]
     limit = job[2] if len(job) > 2 else None
+    slot_limit = job[3] if len(job) > 3 else None
     d = tempfile.mkdtemp(prefix="fv-mem-")
     try:
-        tr = sched_run.run(cfg, d, link_order=link_order, memory_limit=limit)
+        tr = sched_run.run(cfg, d, link_order=link_order, memory_limit=limit, slot_limit=slot_limit)
         if link_order is not None:
             tr["link_order"] = list(link_order)
         return tr
@@ -190,7 +191,7 @@ PLAN = {
                 known_mc=[], extra_trace=[]),
 }
 
-C05_Q = ["pair", "chain3p", "fanin1", "fanout", "fanoutshared", "diamondp", "ring2", "ringbreak"]
+C05_Q = ["pair", "chain3p", "fanin1", "fanout", "fanoutshared", "fanout3shared", "diamondp", "ring2", "ringbreak"]
 C05_T = C05_Q + ["chain3t", "fanin2", "diamondt", "pullchain2", "ring3", "pullring", "pairL"]
 
 VACUITY = {"C04": ["NeverCirc"], "C03": ["NeverDone"], "C01": [], "C02": []}
